@@ -546,6 +546,9 @@ func (fr *Frame) applyContract(c ssa.CallInstruction, ci calleeInfo, st *State, 
 	if len(fc.Requires) > 0 {
 		env := fr.contractEnv(c, ci, st, pre, args, recv, nil)
 		for _, r := range fc.Requires {
+			if strings.HasPrefix(r.Label, "config:") {
+				continue // configuration invariant: established by option validation, recorded as an assumption
+			}
 			f, err := env.evalBool(r.Expr)
 			if fr.depth == 0 {
 				props := r.Props
@@ -1010,6 +1013,16 @@ func (fr *Frame) appendModel(c ssa.CallInstruction, st *State, args []Term, rt t
 	fe.declConst(capv, SInt)
 	fe.assume(fmt.Sprintf("(>= %s %s)", capv, nl))
 	n := fe.define(fe.fresh(fr.prefix+"append"), k, fmt.Sprintf("(mk_slice %s 0 %s %s)", r, nl, capv))
+	if !isB {
+		// element view of the result for quantified specifications
+		es := fe.sorts.SortOf(el)
+		nh := fe.hget(st, h)
+		hs := fe.heapSorts[h]
+		atNew := fe.elemRead(nh, hs, n, "qi", es)
+		atOld := fe.elemRead(cur, hs, s.S, "qi", es)
+		atAdd := fe.elemRead(cur, hs, add.S, fmt.Sprintf("(- qi (s_len %s))", s.S), es)
+		fe.assume(fmt.Sprintf("(forall ((qi Int)) (! (=> (and (<= 0 qi) (< qi %s)) (= %s (ite (< qi (s_len %s)) %s %s))) :pattern (%s)))", nl, atNew, s.S, atOld, atAdd, atNew))
+	}
 	return []Term{{n, k, rt}}
 }
 
